@@ -152,6 +152,16 @@ theorem rs_shared (env : Env) (tyOf : Nat → Option Nat) (chain : List Comp) (h
           cpa.cl.nodes hnd i j hi hj (by simp [hni, hl1]) (by simp [hnj, hl2]) (by simp [hni, hnj, hu1, hu2])
         exact hij this
 
+/-- **C03 (request-scoped, shared) without the guard**: in a uniform pipeline all values of a request-scoped
+    constructor that reach any input of any component are one and the same node. -/
+theorem rs_shared_uniform {env : Env} {lk : Nat → Option CDef} {rank : Nat → Nat} {tyOf : Nat → Option Nat}
+    (w : World env lk rank tyOf) (c0 : Comp) (ms : List Comp) (h : Comp) (hw : c0.isWrapping = true)
+    (hnd : (c0 :: ms ++ [h]).Nodup) (hun : Uniform env lk (c0 :: ms) h) (x : Nat) (o1 o2 : Origin)
+    (h1 : (plan env tyOf (c0 :: ms) h).isNodeOf o1 x) (h2 : (plan env tyOf (c0 :: ms) h).isNodeOf o2 x) : o1 = o2 :=
+  rs_shared env tyOf (c0 :: ms) h
+    (pipeline_partition w (c0 :: ms) h (uniformStages_of_uniform hun) (stagesOk_group c0 ms h hw hnd)) x o1 o2 h1 h2
+
+
 /-- **C03 (singletons, never while a request is served)**: no closure of any pipeline contains a
     node for a singleton constructor — singletons are inputs, read from the application state. -/
 theorem singleton_never_in_request (env : Env) (tyOf : Nat → Option Nat) (chain : List Comp) (h : Comp) :
